@@ -103,7 +103,7 @@ PROPS["C14"] = dict(
                "encrypt is an uninterpreted function in the streaming harnesses; round constants are symbolic (their Keccak "
                "derivation is outside the claim).",
     bounds="Write: len(p) <= 2*BlockSize+1, spare capacity <= BlockSize, all byte values; streaming: 2 blocks, "
-           "histories Write/Write/Sum/Sum/Reset/State/SetState as written in the harness; round: 2 blocks, all rounds",
+           "histories Write/Write/Sum/Sum/Reset/State/SetState as written in the harness (incl. SetState with one block pending); round: 2 blocks, all rounds",
     outside="Poseidon2, SIS (not built yet); constants derivation; messages longer than 2 blocks",
     assumptions=["felt summaries of fr.Element operations", "hash registry not exercised"],
 )
@@ -130,7 +130,8 @@ PROPS["C16"] = dict(
     level_note="Hash functions (Poseidon2 compression; leafSum/nodeSum of the accumulator) are injective uninterpreted functions "
                "with disjoint leaf/node ranges (collision resistance). koalabear.Element by canonical value.",
     bounds="vortex: n in {1,2,3,4,5,8} honest, tampering n in {3,4,8}; accumulator: every (n,i) with n<=9 honest, tampering "
-           "for (n,i) in {(2,0),(3,2),(5,1),(5,4),(6,5),(7,6)}, symbolic index < 128, 2-byte leaves; PushSubTree n=8",
+           "for (n,i) in {(2,0),(3,2),(5,1),(5,4),(6,5),(7,6)}, symbolic index < 128, 2-byte leaves; PushSubTree roots n=8 (heights 1,2), "
+           "proofs with one cached sub-tree for (n,height) in {(4,0),(6,1),(8,1),(8,2)}, every start and proven leaf",
     outside="n beyond the bounds; ReadAll segment readers; real-hash collisions",
     assumptions=["hash injective on the finitely many inputs of a harness", "leaf data (2 bytes) and node input (64 bytes) hash to different digests"],
 )
@@ -158,7 +159,7 @@ PROPS["C20"] = dict(
                "index, with symbolic coefficients and point.",
     level_note="fr.Element by canonical value (felt), products uninterpreted modulo AC with zero/zero-divisor facts, the domain "
                "generator an opaque element. Conversions between bases (FFT) are not covered yet.",
-    bounds="size 4; canonical/regular for Evaluate; Lagrange regular and bit-reversed for GetCoeff",
+    bounds="size 4; canonical/regular for Evaluate, also with the vector extended to length 8 (SetSize 4; shifts 1, 7, -3); Lagrange regular and bit-reversed for GetCoeff",
     outside="form conversions, barycentric evaluation, derived builders, sizes > 4",
     assumptions=["felt summaries of fr.Element", "fft.Generator(m) is a fixed element depending only on m"],
 )
